@@ -165,11 +165,19 @@ func valueSwitchCases(info *types.Info, body ast.Node, field string) (cases map[
 
 // typeCaseOf finds the clause of a type switch in fd handling type tname.
 func typeCaseOf(info *types.Info, fd *ast.FuncDecl, tname string) *ast.CaseClause {
-	for _, ts := range findTypeSwitches(info, fd.Body, nil) {
-		for _, cc := range ts.Clauses {
-			for _, t := range ts.Types[cc] {
-				if t != nil && TypeStr(t) == tname {
-					return cc
+	roots := []ast.Node{fd.Body}
+	if curProgram != nil {
+		if pkg := curProgram.PkgOf(fd.Pos()); pkg != nil {
+			roots = curProgram.regionOf(pkg, fd.Body) // also the helpers the function was split into
+		}
+	}
+	for _, root := range roots {
+		for _, ts := range findTypeSwitches(info, root, nil) {
+			for _, cc := range ts.Clauses {
+				for _, t := range ts.Types[cc] {
+					if t != nil && TypeStr(t) == tname {
+						return cc
+					}
 				}
 			}
 		}
@@ -557,7 +565,11 @@ func ruleC05Dead(p *Program, r *Run, handledBin, producedBin map[string]string) 
 	}
 	co := p.MustFunc(pql, "CompileOptions.Compile")
 	handledSt := map[string]bool{}
-	for _, ts := range findTypeSwitches(info, co.Body, p.Named(p.Parser, "Statement")) {
+	var stmtSwitches []*typeSwitchInfo
+	for _, root := range p.regionOf(pql, co.Body) {
+		stmtSwitches = append(stmtSwitches, findTypeSwitches(info, root, p.Named(p.Parser, "Statement"))...)
+	}
+	for _, ts := range stmtSwitches {
 		for _, tl := range ts.Types {
 			for _, t := range tl {
 				if t != nil {
